@@ -20,8 +20,8 @@ SIZES = {  # tier -> (random bytes, template instructions, chunk size)
 }
 
 
-RANGE = ["0x401000", "0x401008"]
-RANGE_RULE = "config:\n  valid_addr_range:\n    min: '0x401000'\n    max: '0x401008'\npattern:\n- nop\n"
+RANGE = ["0x401000", "0x401020"]
+RANGE_RULE = "config:\n  valid_addr_range:\n    min: '0x401000'\n    max: '0x401020'\npattern:\n- nop\n"
 INTEL_RULE = "config:\n  style: intel\npattern:\n- nop\n"
 
 
@@ -53,8 +53,9 @@ def part_a(report, prop, tier):
         # the same listings with the library's logger at DEBUG level (`jasm --debug`): logging must not change the stream
         obs_d = parsepipe.parse_texts(texts, f"{prop}ad", debug_level=True)
         cases += [parsepipe.case("abs", x["lines"], x["listing"], o) for x, o in zip(items, obs_d)]
-    if prop == "C10":
+    if prop in ("C08", "C10"):
         # the same listings under a rule with valid_addr_range: tagging rewrites operands, it never removes a record
+        # and never touches an address or a mnemonic
         obs_r = parsepipe.parse_texts(texts, f"{prop}ar", rule=RANGE_RULE)
         cases += [parsepipe.case("range", x["lines"], x["listing"], o, x["lines"], o2, RANGE) for x, o, o2 in zip(items, obs, obs_r)]
     if prop == "C09":
